@@ -17,8 +17,22 @@ STORE = 'std::sync::atomic::Atomic::store'
 LOAD = 'std::sync::atomic::Atomic::load'
 
 
-def _active_atom(a, want):
-    return a[0] == 'bool' and a[1][0] == 'call' and a[1][1] == LOAD and any(x[0] == 'field' and x[2] == 'active' for x in walk(a[1])) and a[2] is want
+def _reads_active(P, t, depth=2):
+    """tree = a load of the module's `active` flag, directly or through a getter whose body is exactly such a load (ModuleRef::is_active)"""
+    if t[0] != 'call':
+        return False
+    if t[1] == LOAD:
+        return any(x[0] == 'field' and x[2] == 'active' for x in walk(t))
+    g = P.fns.get(t[1]) if depth > 0 else None
+    if g is not None and g.argc == 1 and len(g.blocks) <= 6:
+        rts = [peel(x) for _, x in ret_trees(g)]
+        return bool(rts) and all(_reads_active(P, canon(x), depth - 1) for x in rts)
+    return False
+
+
+def _active_atom(a, want, P=None):
+    return a[0] == 'bool' and a[2] is want and _reads_active(P, a[1]) if P is not None else \
+        (a[0] == 'bool' and a[1][0] == 'call' and a[1][1] == LOAD and any(x[0] == 'field' and x[2] == 'active' for x in walk(a[1])) and a[2] is want)
 
 
 def r1_inert_handlers(ctx):
@@ -32,7 +46,7 @@ def r1_inert_handlers(ctx):
         ctx.floor('harness executions in %s' % short(key), len(execs), floor)
         for s in execs + ups:
             atoms = [a for _, a in f.guard_atoms(s.b)]
-            ctx.check(any(_active_atom(a, True) for a in atoms), 'guard:%s' % key.split('::')[-1],
+            ctx.check(any(_active_atom(a, True, ctx.P) for a in atoms), 'guard:%s' % key.split('::')[-1],
                       '%s: no user code / processing element runs unless the module is active' % short(key), s.where(), [show_atom(a) for a in atoms][:4])
 
 
